@@ -405,7 +405,7 @@ func runC20(r *Run) {
 			return
 		}
 		defer os.RemoveAll(filepath.Join(r.Scratch, "symlink-observation"))
-		_ = os.WriteFile(filepath.Join(base, "real", "x.sh"), []byte("#!/bin/bash\n"), 0o755)
+		_ = writeScript(filepath.Join(base, "real", "x.sh"), []byte("#!/bin/bash\n"), 0o755)
 		_ = os.WriteFile(filepath.Join(base, "real", "plain"), []byte("data\n"), 0o644)
 		_ = os.Symlink("real/x.sh", filepath.Join(base, "link-to-exec"))
 		_ = os.Symlink("real/plain", filepath.Join(base, "link-to-plain"))
